@@ -602,6 +602,27 @@ class Model(object):
       return amp * cmax * sum(abs(r) ** i for i in range(6))
     raise KeyError(k)
 
+  def max_submag(self, node, r, at=None):
+    """Largest magnitude of any sub-expression at r: double arithmetic overflows when an
+    intermediate result does, even if the final value is moderate."""
+    r = F(r)
+    at = r if at is None else F(at)
+    m = self.mag(node, r, at)
+    k = node["k"]
+    subs = []
+    if k in ("sum", "product", "pow"):
+      subs = [(a, r, at) for a in node["a"]]
+    elif k == "trans":
+      x = F(node["x"])
+      subs = [(node["f"], r + x, at + x)]
+    elif k == "ranges":
+      i = select_range([(mm, s, None) for mm, s, _ in node["parts"]], at)
+      if i is not None:
+        subs = [(node["parts"][i][2], r, at)]
+    for sub, rr, aa in subs:
+      m = max(m, self.max_submag(sub, rr, aa))
+    return m
+
   def deriv(self, node, r, n=1):
     """n-th derivative at r of the branch selected at r (one-sided at breakpoints)."""
     r = F(r)
@@ -643,9 +664,36 @@ class Model(object):
       t = self.tables[node["name"]]
       out += [float(v) - shift for v in t["x"]]
     elif k == "custom":
-      out += [float(b) - shift for b in self.forms[node["name"]].get("breaks", [])]
+      out += [b - shift for b in self._expr_breaks(self.forms[node["name"]]["expr"], set())]
     elif k == "py":
-      out += [float(b) - shift for b in node.get("breaks", [])]
+      out += [b - shift for b in self._expr_breaks(node["expr"], set())]
+    return out
+
+  def _expr_breaks(self, e, seen):
+    """Breakpoints of a formula in its first argument: if() thresholds, the data points of
+    table forms it calls and the breakpoints of custom forms it calls (generated formulas pass
+    r itself to such calls)."""
+    out = []
+    if not isinstance(e, list) or not e:
+      return out
+    if e[0] == "if":
+      c = e[1]
+      for side in (c[1], c[2]):
+        if side[0] == "num":
+          out.append(float(side[1]))
+    if e[0] == "call":
+      name = e[1]
+      if name in self.tables:
+        out += [float(v) for v in self.tables[name]["x"]]
+      elif name in self.forms and name not in seen:
+        out += self._expr_breaks(self.forms[name]["expr"], seen | {name})
+    for x in e[1:]:
+      if isinstance(x, list):
+        if x and isinstance(x[0], list):
+          for y in x:
+            out += self._expr_breaks(y, seen)
+        else:
+          out += self._expr_breaks(x, seen)
     return out
 
 
